@@ -27,7 +27,7 @@ FRINGE_KINDS = ["bits0", "swapb", "swapm", "discardb", "cgate1", "cgate2", "meas
 PHASES = [0.25, 0.5, 0.3, -0.7, 1.1, 0.125, -1.25, 2.0, 0.0, 1.0]
 SCALARS = [["scalar", 0.5, 0.0], ["scalar", 0.0, 1.0], ["sqrt", 2.0], ["mixed", 0.5],
            ["scalar", 1.0, 1.0], ["mixed", 3.0], ["scalar", 2.0, 0.0], ["sqrt", 0.5],
-           ["scalar", -1.0, 0.0]]
+           ["scalar", -1.0, 0.0], ["mixed", -1.0], ["mixed", -0.5]]
 
 
 def make_config(prop, rng, tier):
